@@ -8,7 +8,7 @@ State machine `GeoVerif/Model/ObjState.lean`: a live shape and an argument shape
 is a list of `Op`: read-only calls on the shape (`read`), read-only calls with the second shape as
 argument (`read2`), and the four API mutators in both `inplace` modes (`Op.api`).
 
-`fills : Kind → Read → List Slot` — which memo slots (`cached_property bounds/centroid/area`,
+`fills : FillTable` (`Kind → has-dt → Read →` memoised observations the call goes through) — which memo slots (`cached_property bounds/centroid/area`,
 `lru_cache to_shapely`) a read leaves filled — is *arbitrary* in every theorem: coherence does not
 depend on which reads memoise, only on **what** may be memoised: values computed from the hole list and
 the vertex/member list, which no API call changes.  `volume` reads `dt` and is therefore not a memo
@@ -77,7 +77,7 @@ theorem fill_wf {h : Heap H W} {o : Obj G H W} (w : WF h o) (sl : List Slot) : W
   w.of_same rfl rfl rfl rfl
 
 /-- **read-only calls change no defining field**, neither of the receiver nor of the argument -/
-theorem reads_pure (fills : Kind → Read → List Slot) (s : St G H W) (r : Read) :
+theorem reads_pure (fills : FillTable) (s : St G H W) (r : Read) :
     fields (opStep fills s (.read r)).heap (opStep fills s (.read r)).obj = fields s.heap s.obj ∧
     fields (opStep fills s (.read2 r)).heap (opStep fills s (.read2 r)).obj = fields s.heap s.obj ∧
     fields (opStep fills s (.read2 r)).heap (opStep fills s (.read2 r)).arg = fields s.heap s.arg ∧
@@ -86,7 +86,7 @@ theorem reads_pure (fills : Kind → Read → List Slot) (s : St G H W) (r : Rea
   ⟨rfl, rfl, rfl, rfl, rfl, rfl⟩
 
 /-- … nor any observation (memoised ones included) -/
-theorem reads_pure_obs (fills : Kind → Read → List Slot) {s : St G H W} (i : Inv s) (r : Read) :
+theorem reads_pure_obs (fills : FillTable) {s : St G H W} (i : Inv s) (r : Read) :
     observe (opStep fills s (.read r)).heap (opStep fills s (.read r)).obj = observe s.heap s.obj ∧
     observe (opStep fills s (.read2 r)).heap (opStep fills s (.read2 r)).obj = observe s.heap s.obj ∧
     observe (opStep fills s (.read2 r)).heap (opStep fills s (.read2 r)).arg = observe s.heap s.arg :=
@@ -94,22 +94,22 @@ theorem reads_pure_obs (fills : Kind → Read → List Slot) {s : St G H W} (i :
 
 /-! ## the invariant along a history -/
 
-theorem opStep_inv (fills : Kind → Read → List Slot) {s : St G H W} (i : Inv s) (op : Op H) (hop : op.api) :
+theorem opStep_inv (fills : FillTable) {s : St G H W} (i : Inv s) (op : Op H) (hop : op.api) :
     Inv (opStep fills s op) := by
   cases op with
   | read r =>
     refine ⟨?_, ?_, ?_, ?_, ?_⟩ <;> simp only [opStep]
     · exact fill_wf i.wfObj _
     · exact i.wfArg
-    · exact (i.sep.symm.of_same (b' := fill s.heap s.obj (fills s.obj.kind r)) rfl rfl).symm
+    · exact (i.sep.symm.of_same (b' := fill s.heap s.obj (s.obj.fillsOf fills r)) rfl rfl).symm
     · exact fill_coherent i.cohObj _
     · exact i.cohArg
   | read2 r =>
     refine ⟨?_, ?_, ?_, ?_, ?_⟩ <;> simp only [opStep]
     · exact fill_wf i.wfObj _
     · exact fill_wf i.wfArg _
-    · exact ((i.sep.of_same (b' := fill s.heap s.arg (fills s.arg.kind r)) rfl rfl).symm.of_same
-        (b' := fill s.heap s.obj (fills s.obj.kind r)) rfl rfl).symm
+    · exact ((i.sep.of_same (b' := fill s.heap s.arg (s.arg.fillsOf fills r)) rfl rfl).symm.of_same
+        (b' := fill s.heap s.obj (s.obj.fillsOf fills r)) rfl rfl).symm
     · exact fill_coherent i.cohObj _
     · exact fill_coherent i.cohArg _
   | update m ip =>
@@ -127,7 +127,7 @@ theorem opStep_inv (fills : Kind → Read → List Slot) {s : St G H W} (i : Inv
       rw [fa.curStamp]
       exact i.cohArg sl st hs
 
-theorem run_inv (fills : Kind → Read → List Slot) : ∀ (ops : List (Op H)) {s : St G H W}, Inv s →
+theorem run_inv (fills : FillTable) : ∀ (ops : List (Op H)) {s : St G H W}, Inv s →
     (∀ op ∈ ops, op.api) → Inv (run fills s ops)
   | [], _, i, _ => i
   | op :: ops, _, i, h =>
@@ -179,7 +179,7 @@ theorem obs_coherent_of {h : Heap H W} {o : Obj G H W} (w : WF h o) (c : Coheren
 /-- **after any history of reads and API updates (either `inplace` mode) every observation of the
     live shape — memoised ones and `volume` included — equals that of a freshly constructed shape with
     the same geometry, time and properties**, and the argument shape observes as it did at the start -/
-theorem obs_coherent (fills : Kind → Read → List Slot) (f g : Fields G H W) (hf : f.OK) (hg : g.OK)
+theorem obs_coherent (fills : FillTable) (f g : Fields G H W) (hf : f.OK) (hg : g.OK)
     (ops : List (Op H)) (hops : ∀ op ∈ ops, op.api) :
     observe (run fills (init f g) ops).heap (run fills (init f g) ops).obj =
       observe (fresh (fields (run fills (init f g) ops).heap (run fills (init f g) ops).obj)).1
@@ -188,7 +188,7 @@ theorem obs_coherent (fills : Kind → Read → List Slot) (f g : Fields G H W) 
   exact obs_coherent_of i.wfObj i.cohObj
 
 /-- the argument of predicates is never changed by a history on the receiver -/
-theorem arg_untouched (fills : Kind → Read → List Slot) : ∀ (ops : List (Op H)) {s : St G H W}, Inv s →
+theorem arg_untouched (fills : FillTable) : ∀ (ops : List (Op H)) {s : St G H W}, Inv s →
     (∀ op ∈ ops, op.api) → observe (run fills s ops).heap (run fills s ops).arg = observe s.heap s.arg
   | [], _, _, _ => rfl
   | op :: ops, s, i, h => by
@@ -205,7 +205,7 @@ theorem arg_untouched (fills : Kind → Read → List Slot) : ∀ (ops : List (O
 
 /-- **the same question gets the same answer**: whatever an answer is as a function of the
     observation, any number of reads in between does not change it -/
-theorem repeat_same_answer {α : Type} (fills : Kind → Read → List Slot) (ans : Obs G H W → α)
+theorem repeat_same_answer {α : Type} (fills : FillTable) (ans : Obs G H W → α)
     (rs : List Read) {s : St G H W} (i : Inv s) :
     ans (observe (run fills s (rs.map Op.read)).heap (run fills s (rs.map Op.read)).obj) =
       ans (observe s.heap s.obj) := by
@@ -332,7 +332,7 @@ theorem inplace_refines {h : Heap H W} {o : Obj G H W} (m : Mut H) (hapi : m.isA
 
 private def fA : Fields Nat Nat Nat := ⟨.ring, 3, some ⟨0, 10⟩, [("k", .atom 1)], some [5, 6], none⟩
 private def fB : Fields Nat Nat Nat := ⟨.polygon, 4, none, [], some [], some [1, 2, 3, 1]⟩
-private def allFill : Kind → Read → List Slot := fun _ _ => [.bounds, .centroid, .area, .shapely]
+private def allFill : FillTable := fun _ _ _ => [(.bounds, []), (.centroid, []), (.area, [.shapely])]
 
 example : Inv (init fA fB) := init_inv fA fB (by simp [Fields.OK, fA]) (by simp [Fields.OK, fB, Kind.seqMode])
 /-- a history that really changes `dt` and the properties, with memoising reads in between -/
